@@ -125,7 +125,19 @@ func c16Exec(op string) string {
 	if a := ascending(x0); a != "" {
 		note(a)
 	}
-	// Writer forms
+	// Writer forms - each after a Writer-form call that failed part-way (nothing of a failed
+	// call may show up in a later one)
+	{
+		var junk bytes.Buffer
+		badAttr := mxj.Map{"doc": map[string]interface{}{"a": "stale", "c": map[string]interface{}{"-id": []interface{}{1}}}}
+		badAttr.XmlWriter(&junk)
+		badAttr.XmlIndentWriter(&junk, pre, ind)
+		badJson := mxj.Map{"stale": "x", "zz": make(chan int)}
+		badJson.JsonWriter(&junk)
+		badJson.JsonIndentWriter(&junk, pre, ind)
+		badJson.JsonWriterRaw(&junk)
+		badJson.JsonIndentWriterRaw(&junk, pre, ind)
+	}
 	var w bytes.Buffer
 	if err := mv.XmlWriter(&w); err != nil || !bytes.Equal(w.Bytes(), x0) {
 		note("XmlWriter wrote other bytes than Xml returns")
